@@ -51,7 +51,7 @@ THEOREMS = [
     "recover_a", "recover_e", "recover_i", "recover_Omega", "recover_E", "recover_omega",
     "elements_roundtrip", "elements_roundtrip_mod2pi", "principal_ranges", "state_roundtrip",
     "true_anomaly_is_polar_angle", "true_anomaly_half_angle", "kepler_equation", "kepler_equation_unique",
-    "model_exprs_ok", "check_k2t_sound", "check_t2k_sound", "gm_positive",
+    "model_exprs_ok", "check_k2t_sound", "check_t2k_sound", "gm_positive", "gm_sources_positive",
 ]
 
 REQ = "From Verif Require Import Lib.Dyadic Model.C07_Kepler."
@@ -62,42 +62,57 @@ I_MIN, I_MAX = 0.01, PI - 0.01
 
 
 # ----------------------------------------------------------------------------- regeneration of Gen/C07_Const.v
-def read_gm_text():
-    """the decimal text of [GM] default in midgard/math/constant.txt (one level of %(name)s interpolation, as the
-    configuration reader does)"""
+def read_gm_entries():
+    """the entries of section [GM] of midgard/math/constant.txt: ({name: decimal text}, name `default` points to or None)
+    (one level of %(name)s interpolation, as the configuration reader does)"""
     path = os.path.join(core.REPO, "midgard", "math", "constant.txt")
     section, entries = None, {}
     for raw in open(path, encoding="utf8"):
-        line = raw.split("#")[0].rstrip() if raw.lstrip().startswith("#") else raw.rstrip()
+        line = "" if raw.lstrip().startswith("#") else raw.rstrip()
         m = re.match(r"^\[(.+)\]\s*$", line)
         if m:
             section = m.group(1)
             continue
         if section == "GM":
             m = re.match(r"^(\w+)\s*=\s*(.*?)\s*$", line)
-            if m:
+            if m and not m.group(1).startswith("__"):
                 entries[m.group(1)] = m.group(2)
-    val = entries["default"]
-    m = re.match(r"^%\((\w+)\)s$", val)
     via = None
+    m = re.match(r"^%\((\w+)\)s$", entries["default"])
     if m:
         via = m.group(1)
-        val = entries[via]
-    return val, via
+        entries["default"] = entries[via]
+    return entries, via
+
+
+def gm_sources():
+    """sorted names of the sources that define GM (without `default`)"""
+    entries, _ = read_gm_entries()
+    return sorted(n for n in entries if n != "default")
 
 
 def regen(ctx):
     from midgard.math.constant import constant
-    text, via = read_gm_text()
-    frac = Fraction(text)
+    entries, via = read_gm_entries()
+    text = entries["default"]
     gm = float(constant.GM)
+    rows = []
+    for name in gm_sources():
+        with constant.use_source(name):
+            g = float(constant.GM)
+        rows.append(f"  ({emit.q(Fraction(entries[name]))}, {emit.dy(g)})   (* {name}: text {json.dumps(entries[name])} *)")
     body = (
         f"(* midgard/math/constant.txt, section [GM], entry `default`"
         + (f" (resolved through %({via})s)" if via else "") + f": text {json.dumps(text)} *)\n"
-        "From Coq Require Import ZArith QArith.\nFrom Verif Require Import Lib.Dyadic.\n"
-        f"Definition GM_Q : Q := {emit.q(frac)}.\n"
+        "From Coq Require Import ZArith QArith List.\nImport ListNotations.\nFrom Verif Require Import Lib.Dyadic.\n"
+        f"Definition GM_Q : Q := {emit.q(Fraction(text))}.\n"
         "(* midgard.math.constant.constant.GM at run time (the double the conversions use) *)\n"
-        f"Definition GM_dy : dy := {emit.dy(gm)}.\n")
+        f"Definition GM_dy : dy := {emit.dy(gm)}.\n"
+        "(* every source that defines GM, sorted by name: (exact decimal of the text, constant.GM inside use_source(name)) *)\n"
+        "Definition GM_sources : list (Q * dy) := [\n" + ";\n".join(rows).replace(")   (*", ")  (*") + "\n].\n")
+    # `;` must come before the trailing comment of a row, not after it
+    body = re.sub(r"(\(\* [^*]*\*\));\n", r";  \1\n", body)
+    body = re.sub(r"\)  ;  \(\*", r");  (*", body)
     return ctx.regen("C07_Const", body)
 
 
@@ -259,6 +274,8 @@ def run(ctx):
         "k2t": Cases("check_k2t", 60), "t2k": Cases("check_t2k", 40), "tb": Cases("check_twobody", 60),
         "rt": Cases("check_roundtrip", 400), "rte": Cases("check_roundtrip_elements", 400),
         "anom": Cases("check_anomaly", 80), "const": Cases("check_const", 1),
+        "k2t_src": Cases("check_k2t_src", 30), "t2k_src": Cases("check_t2k_src", 20), "tb_src": Cases("check_twobody_src", 30),
+        "const_src": Cases("check_const_src", 20),
     }
     fam["const"].add("tt", dict(kind="const", GM=gm, how="midgard.math.constant.constant.GM vs [GM] default of constant.txt"))
     other = []          # structural mismatches (shape / type / exception): (finding id or None, replay dict)
@@ -416,9 +433,58 @@ def run(ctx):
         ctx.count(f"array:n={n}")
         array_case(rows, dict(kind="array", n=n, how=HOWN), j)
 
+    # ---- E. every source of constant.txt that defines GM: the conversions run inside constant.use_source(name) and are
+    #      compared with the model instantiated with THAT source's GM (regenerated table Gen/C07_Const.GM_sources); the round
+    #      trip shows that both directions read the same GM
+    n_src = 4 if q else 24
+    for si, name in enumerate(gm_sources()):
+        with constant.use_source(name):
+            g_here = float(constant.GM)
+            fam["const_src"].add(emit.pair(emit.z(si), emit.dy(g_here)),
+                                 dict(kind="const_src", source=name, GM=g_here, how=f"constant.GM inside constant.use_source({name!r})"))
+            for j in range(n_src + 1):
+                is_arr = (j == n_src)
+                rows = [gen_elements(rng, rng.randrange(512))[0] for _ in range(3 if is_arr else 1)]
+                raw = (j % 2 == 1) and not is_arr
+                rep = dict(kind="source", source=name, GM=g_here, array=is_arr,
+                           via="transformation.kepler2trs/trs2kepler" if raw else "PosVel attributes",
+                           how=f"with constant.use_source({name!r}): PosVel(k, system='kepler').trs -> PosVel(s, system='trs').kepler -> .trs")
+                ctx.count(f"source:{name}")
+                try:
+                    ks = np.array(rows) if is_arr else rows[0]
+                    p = PosVel(fresh(ks), system="kepler")
+                    ss = out(transformation.kepler2trs(p)) if raw else out(p.trs)
+                    t = PosVel(fresh(ss), system="trs")
+                    kk = PosVel(out(transformation.trs2kepler(t)), system="kepler") if raw else t.kepler
+                    k2s = out(kk)
+                    s2s = out(transformation.kepler2trs(kk)) if raw else out(kk.trs)
+                    want = (len(rows), 6) if is_arr else (6,)
+                    if not (shape_check("kepler2trs under use_source", ss, want, rep) and shape_check("trs2kepler under use_source", k2s, want, rep)
+                            and shape_check("round trip under use_source", s2s, want, rep)):
+                        continue
+                    for i, k in enumerate(rows):
+                        s_, k2, s2 = ss.reshape(-1, 6)[i], k2s.reshape(-1, 6)[i], s2s.reshape(-1, 6)[i]
+                        r2 = dict(rep, row=i, elements=fl(k), elements_hex=hexes(k), state=fl(s_), elements_out=fl(k2), back=fl(s2))
+                        fam["k2t_src"].add(emit.pair(emit.z(si), dys(k), dys(s_)), dict(r2, check=f"kepler2trs vs model with GM of {name}"))
+                        fam["t2k_src"].add(emit.pair(emit.z(si), dys(s_), dys(k2)), dict(r2, check=f"trs2kepler vs model with GM of {name}"))
+                        fam["tb_src"].add(emit.pair(emit.z(si), dys(s_), dys(k2)), dict(r2, check=f"two-body relations with GM of {name}"))
+                        fam["rt"].add(emit.pair(dys(s_), dys(s2)), dict(r2, check=f"state round trip < 1e-8 inside use_source({name!r}) (both directions must read the same GM)"))
+                        fam["rte"].add(emit.pair(dys(k), dys(k2)), dict(r2, check="elements round trip"))
+                except Exception as e:
+                    crash(dict(rep, elements=[fl(r) for r in rows]), e)
+                    continue
+                ctx.case(("E", name, tuple(tuple(hexes(r)) for r in rows)), nontrivial=True)
+
     # ---------------------------------------------------------------- evaluate in Coq and decide
+    # all families in one parallel batch (shards of every family side by side)
+    shards, owner = [], []
     for name, c in fam.items():
-        vs = ctx.coq_cases(emit.shard_terms(c.fn, c.terms, c.size), REQ)
+        for sh in emit.shard_terms(c.fn, c.terms, c.size):
+            shards.append(sh)
+            owner.append(name)
+    all_vs = ctx.coq_cases(shards, REQ)
+    for name, c in fam.items():
+        vs = [v for v, o in zip(all_vs, owner) if o == name]
         flat = emit.flatten_verdicts(vs, len(c.terms))
         ctx.count(f"cases:{name}", len(c.terms))
         if flat is None:
